@@ -41,41 +41,46 @@ def run(rep: Report) -> None:
         for n1 in (False, True):
             tag = f"{impl}{' N=1' if n1 else ''}"
             nz = PC.prim_normalizer(True)
-            env = E.Env({"K": n1})
+            env = E.Env(PC.prim_env("links.controlled_Veq", n1))
+            vsl = [0] if n1 else [1, 3]
             cv = _prim(prog, impl, "links.controlled_Veq", n1=n1)
             ve = _prim(prog, impl, "links.Veq", n1=n1)
             if cv.term is None or ve.term is None:
                 rep.refuted("vsl-neutral", tag, cv.where, f"raises {cv.raised or ve.raised}", key=f"vsl|{impl}|raise")
                 continue
-            vctrl = ("w", "v_ctrl", "K", "vsl")
+            vctrl = E.V("v_ctrl", "K.vsl")
             t_inf = M.subst(cv.term, {vctrl: INFV})
             try:
                 d = M.compare(t_inf, ve.term, env, nz)
+                undefined = []
+                for pos in E.positions(E.shape(t_inf, env), env):
+                    undefined += M.definedness(t_inf, pos, env, nz)
             except (E.ShapeError, Exception) as ex:
                 d = [("error", str(ex), "")]
+                undefined = []
             rep.check(not d, "vsl-neutral", f"{tag}: controlled_Veq with infinite limits equals Veq", cv.where,
                       "" if not d else f"at {d[0][0]}: {d[0][1][:300]} | Veq = {d[0][2][:300]}",
                       key=f"vsl-inf|{impl}")
+            rep.check(not undefined, "vsl-neutral-defined", f"{tag}: controlled_Veq is defined for infinite limits", cv.where,
+                      "" if not undefined else f"{undefined[0][0]}: `{undefined[0][1]}` may be undefined (e.g. 0*inf) for an "
+                      "admissible non-compliance factor", key=f"vsl-inf-def|{impl}")
             # outside the limited set / upper bound
             ok_out, ok_ub, detail = True, True, ""
             for pos in E.positions(E.shape(cv.term, env), env):
+                k = 0 if pos is None else pos[1]
                 sc = E.at(cv.term, pos, env)
                 vq = nz.rf(E.at(ve.term, pos, env))
-                r = nz.rf(sc)
-                a = r.single_atom()
-                dsc = nz.desc(a) if a is not None else None
-                if dsc is None or dsc[0] != "inset":
-                    ok_out = False
-                    detail = f"at {E._fpos(pos)} the controlled speed is not `limited if in vsl else Veq`: {nz.show(r)[:200]}"
-                    continue
-                if not dsc[4].equals(vq):
-                    ok_out = False
-                    detail = f"segments without a sign get {nz.show(dsc[4])[:200]} instead of Veq"
-                # inside: min(Veq, .) <= Veq
-                inside = sc[3] if sc[0] == "inset" else None
-                if inside is None or not any(u.equals(vq) for u in M.upper_bounds(inside, nz)):
-                    ok_ub = False
-                    detail = f"at {E._fpos(pos)}: Veq is not an upper bound of the limited speed {E.fmt(inside, 200) if inside else ''}"
+                if k not in vsl:
+                    if not nz.rf(sc).equals(vq):
+                        ok_out = False
+                        detail = f"segment {k} has no sign but its equilibrium speed is {nz.show(nz.rf(sc))[:200]}, not Veq"
+                else:
+                    if not any(u.equals(vq) for u in M.upper_bounds(sc, nz)):
+                        ok_ub = False
+                        detail = f"segment {k}: Veq is not an upper bound of the limited speed {E.fmt(sc, 200)}"
+                    if nz.rf(sc).equals(vq):
+                        ok_ub = False
+                        detail = f"segment {k} carries a sign but its speed is not limited"
             rep.check(ok_out, "vsl-unlimited-untouched", tag, cv.where, detail, key=f"vsl-out|{impl}")
             rep.check(ok_ub, "vsl-never-raises", tag, cv.where, detail, key=f"vsl-ub|{impl}")
             # step_speed affine in Veq with non-negative coefficient
@@ -89,6 +94,7 @@ def run(rep: Report) -> None:
                 h = E.V("h", "K")
                 t1 = M.subst(ss.term, {E.V("Veq", "K"): E.add(E.V("Veq", "K"), h)})
                 coef_ok, dd = True, ""
+                env = E.Env({"K": n1})
                 for pos in E.positions(E.shape(ss.term, env), env):
                     diff = nz.rf(E.at(t1, pos, env)) - nz.rf(E.at(ss.term, pos, env))
                     want = nz.rf(E.at(E.mul(E.div(E.S("T"), E.S("tau")), h), pos, env))
@@ -157,7 +163,7 @@ def _vsl_pair_one(cfg):
         mapping, _ = M.assumption_substitution(p.assumptions, nz)
         M.apply_assumptions(nz, p.assumptions, env, mapping)
         mapping = dict(mapping)
-        mapping[("w", "v_ctrl", "SELF", "vsl")] = E.INF
+        mapping[E.V("v_ctrl", "SELF.vsl")] = E.INF
         for role, vs in q.outputs.items():
             for var, t in vs.items():
                 got = p.outputs.get(role, {}).get(var)
